@@ -1,4 +1,5 @@
 """Effect alphabet (DESIGN §3) and E2: per-function direct effects + call-graph closure."""
+import re
 from .walk import cname
 from .db import strip_generics
 
@@ -52,6 +53,15 @@ def classify(callee):
     return None
 
 
+_REEXPORT = re.compile(r"(?:[A-Za-z_][A-Za-z0-9_]*::)+_::_serde::")
+
+
+def _norm_reexport(path):
+    """rustc prints serde items through the first `extern crate serde as _serde` a derive put into an anonymous const
+    (`orders::base::_::_serde::Deserializer`): which one depends on module order, so print them as `serde::`"""
+    return _REEXPORT.sub("serde::", path)
+
+
 def eff_name(c):
     return "%s.%s" % c
 
@@ -101,7 +111,7 @@ class CallGraph:
                 if callee["local"] and p in db.bodies:
                     edges.add(p)
                 else:
-                    ext.add(cname(p))
+                    ext.add(_norm_reexport(cname(p)))
                     # implicit edges through generic std entry points
                     for tgt in self._implicit(callee, by_trait_impl):
                         edges.add(tgt)
